@@ -82,6 +82,12 @@ class Parse:
         finally:
             self.own = False
 
+    def get(self, kind, r):
+        lst, i = self.env[kind], int(r)
+        if i >= len(lst):
+            raise Skip()                 # the object was never created (its creating call failed)
+        return lst[i]
+
     def more(self):
         return self.i < len(self.t)
 
@@ -119,19 +125,19 @@ class Parse:
         if c == 's':
             return r
         if c == 'b':
-            b = self.env['buses'][int(r)]
+            b = self.get('buses', r)
             if b.index is None and not self.own:
                 raise Skip()             # a freed bus is not passed as an argument (use after free)
             return b
         if c == 'u':
-            u = self.env['bufs'][int(r)]
+            u = self.get('bufs', r)
             if u.bufnum is None and not self.own:
                 raise Skip()
             return u
         if c == 'n':
-            return self.env['nodes'][int(r)]
+            return self.get('nodes', r)
         if c == 'm':
-            b = self.env['buses'][int(r)]
+            b = self.get('buses', r)
             if b.index is None:
                 raise Skip()
             return b.as_map()
@@ -183,7 +189,12 @@ def run_op(line, env):
             return f'ok n{x.node_id}'
         if op in ('nfree', 'run', 'gdump'):
             n = p.value(); flag = p.value()
-            {'nfree': n.free, 'run': n.run, 'gdump': getattr(n, 'dump_tree', None)}[op](flag)
+            if op == 'nfree':
+                n.free(flag)
+            elif op == 'run':
+                n.run(flag)
+            else:
+                n.dump_tree(flag)
             return 'ok'
         if op in ('map', 'mapa', 'mapn', 'mapan', 'set', 'setn', 'fill'):
             n = p.value()
@@ -193,7 +204,6 @@ def run_op(line, env):
             n = p.value(); n.release(p.value()); return 'ok'
         if op in ('trace', 'nquery', 'gfreeall', 'gdeep'):
             n = p.value()
-            {'trace': 'trace', 'nquery': 'query', 'gfreeall': 'free_all', 'gdeep': 'deep_free'}[op]
             getattr(n, {'trace': 'trace', 'nquery': 'query', 'gfreeall': 'free_all',
                         'gdeep': 'deep_free'}[op])()
             return 'ok'
@@ -295,10 +305,6 @@ def run_op(line, env):
         return 'bad-op'
     except Skip:
         return 'skip'
-    except IndexError:
-        if any(t[0] in 'bunm' and t[1:].isdigit() for t in toks[1:]):
-            return 'skip'           # handle of an object that was never created
-        return 'exc:IndexError'
     except Exception as e:
         return f'exc:{type(e).__name__}'
 
@@ -393,11 +399,11 @@ def interpret(ops, env, binding):
         out.append((f'{st} | ' + drain()).rstrip())
         if raised and stack:
             i = unwind(i)
-    while stack:                       # unterminated blocks: close them normally
+    while stack:                       # unterminated blocks never exit: abandon them, nothing is sent
         cm = stack.pop()
         if cm is not None:
             try:
-                cm.__exit__(None, None, None)
+                cm.__exit__(Boom, Boom('eof'), None)
             except Exception:
                 pass
     tail = drain()
